@@ -434,6 +434,27 @@ class Ctx:
                       {'float64_array': base, name: r})
         return base
 
+    def inplace_reuse(self, tag, fn, x, y, inp):
+        """the caller evaluates at an array, CHANGES THAT ARRAY IN PLACE and evaluates again (a profile scan,
+        `theta += step`): the second result is the one of the new values, and going back gives the first again"""
+        x = np.array(x, float)
+        y = np.array(y, float)
+        try:
+            with np.errstate(all='ignore'):
+                a = x.copy()
+                r1 = fn(a)
+                a[:] = y
+                r2 = fn(a)
+                a[:] = x
+                r3 = fn(a)
+                ref1, ref2 = fn(x.copy()), fn(y.copy())
+        except Exception as e:  # noqa
+            self.spec(tag, False, dict(inp, first=x, then=y), {'raised': repr(e)[:200]})
+            return
+        self.spec(tag, _same_struct(r2, ref2) and _same_struct(r1, ref1) and _same_struct(r3, ref1),
+                  dict(inp, first=x, then_in_place=y),
+                  {'second_call': r2, 'fresh_array_with_the_new_values': ref2, 'first_call': r1, 'third_call': r3})
+
     def guard(self, fn, *args, **kw):
         """run one case; an exception escaping from it (none occurs on the unchanged tree) is a
         property failure with that case as the failing input, not an infrastructure problem"""
